@@ -132,6 +132,17 @@ def run_wav(case):
   w.close()
   if route == "fileobj":
     target = io.BytesIO(target.getvalue())
+  elif len(samples) >= 2 * channels:
+    # the same path held other contents a moment ago (and was read): nothing may be remembered
+    w = wave.open(target, "wb")
+    w.setnchannels(channels); w.setsampwidth(width); w.setframerate(rate + 1)
+    w.writeframes(raw[::-1][:len(raw) - width * channels])
+    w.close()
+    list(WavStream(target, keep=not keep))
+    w = wave.open(target, "wb")
+    w.setnchannels(channels); w.setsampwidth(width); w.setframerate(rate)
+    w.writeframes(raw)
+    w.close()
   try:
     ws = WavStream(target, keep=keep) if keep else (WavStream(target) if si % 2 else WavStream(target, keep=False))
     if not isinstance(ws, Stream):
